@@ -221,6 +221,15 @@ class ArgumentGroup(ActionsContainer, argparse._ArgumentGroup):
     parser: Optional[Union["ArgumentParser", "ActionsContainer"]] = None
 
 
+def _is_same_value(val, default) -> bool:
+    """Equality that does not confuse 1, 1.0 and True, used to decide what skip_default can leave out."""
+    if isinstance(val, dict) and isinstance(default, dict):
+        return val.keys() == default.keys() and all(_is_same_value(v, default[k]) for k, v in val.items())
+    if isinstance(val, list) and isinstance(default, list):
+        return len(val) == len(default) and all(_is_same_value(v, d) for v, d in zip(val, default))
+    return type(val) is type(default) and val == default
+
+
 class ArgumentParser(ParserDeprecations, ActionsContainer, ArgumentLinking, argparse.ArgumentParser):
     """Parser for command line, configuration files and environment variables."""
 
@@ -863,16 +872,24 @@ class ArgumentParser(ParserDeprecations, ActionsContainer, ArgumentLinking, argp
                 val = subcfg[key]
                 default = subdefaults[key]
                 class_object_val = None
+                same_class = True
                 if is_subclass_spec(val):
-                    if val["class_path"] != default.get("class_path"):
-                        with parser_context(parent_parser=self):
-                            parser = ActionTypeHint.get_class_parser(val["class_path"])
-                        default = {"init_args": parser.get_defaults().as_dict()}
+                    if not isinstance(default, dict) or val["class_path"] != default.get("class_path"):
+                        same_class = False
+                        try:
+                            with parser_context(parent_parser=self):
+                                parser = ActionTypeHint.get_class_parser(val["class_path"])
+                            default = {"init_args": parser.get_defaults().as_dict()}
+                        except (ImportError, AttributeError, ValueError):
+                            default = {}  # not an importable class (e.g. a dict in an Any value): nothing to leave out
                     class_object_val = val
                     val = val.get("init_args")
                     default = default.get("init_args")
-                if val == default:
-                    del subcfg[key]
+                if _is_same_value(val, default):
+                    if same_class:
+                        del subcfg[key]
+                    else:
+                        class_object_val.pop("init_args", None)
                 elif isinstance(val, dict) and isinstance(default, dict):
                     self._dump_delete_default_entries(val, default)
                     if class_object_val and class_object_val.get("init_args") == {}:
